@@ -37,7 +37,7 @@ TEXT = {
     "C04": "request accounting invariant for every history: created+skipped+remaining = num, the tasks of a request are exactly the ones it created (never more than num); loop accounting of the apply/start spawner for every n and pool state (done means all)",
     "C05": "two-sided books of the per-call semaphore for every history (equality while the consumer lives, no lost wake-up) => never more than num_concurrent tasks of a call, and work conservation: a live consumer waiting on its own semaphore with no wake-up on its way means all num_concurrent slots are held by tasks of the call; request accounting for every history (in order, lazy, one element in hand at most); the premise 'loop idle => no wake-up on its way' stays with the monitor",
     "C06": "decision logic stated outright: all-or-nothing with full state equality, classification, exact frame and delivery",
-    "C07": "what cancel_group/cancel_all do (frame, forgotten name) and what a spawner does at its next step for each placement of the cancellation",
+    "C07": "what cancel_group/cancel_all do (frame, forgotten name), what a spawner does at its next step for each placement of the cancellation, and the invariant over all histories that a spawner cancelled while suspended or not yet begun has created no task and pulled no element since and is over or still doomed (nothing un-cancels it); immutability of the ghost snapshot is a run-time cross-check",
     "C08": "step-level theorems of the stages of gather_and_close (collecting gather waits for the last child, closing step, until_closed); whole-history waiting is a monitor",
     "C09": "complete decision tables of the spawning calls, full state equality on rejection, lock/unlock algebra",
     "C10": "get_group_ids spec, freshness of generated names (pigeonhole; assumes decimal rendering injective), membership of new tasks",
